@@ -92,16 +92,19 @@ def r_chunk_loop(model, rep):
     rep.ob("R-CHUNK-LOOP", "compute_checksum:open-rb", ok, site=cx.site(f.node),
            msg="" if ok else "the file must be opened as open(path, 'rb')")
     # read size: a positive constant (or no argument)
-    reads = [n for n in ast.walk(f.node) if isinstance(n, ast.Call) and isinstance(n.func, ast.Attribute) and n.func.attr == "read"
-             and isinstance(n.func.value, ast.Name) and n.func.value.id == fo]
+    reads = [ev for ev in cx.events if ev.kind == "call" and ev.value[1][0] == "attr" and ev.value[1][2] == "read"
+             and T.contains(ev.value[1][1], lambda x: x[0] == "call" and x[1] == ("global", "open"))]
     ok = len(reads) >= 1
     for r in reads:
-        if r.args:
-            try:
-                size = model.fold(r.args[0], f.module)
-                ok = ok and isinstance(size, int) and size > 0
-            except NotConst:
-                ok = False
+        if r.value[2]:
+            size = facts.fold_small(r.value[2][0])
+            if size is None:
+                try:
+                    size = cx.const_of(r.value[2][0])
+                except Exception:
+                    size = None
+            ok = ok and isinstance(size, int) and not isinstance(size, bool) and size > 0
+        ok = ok and not r.value[3]
     rep.ob("R-CHUNK-LOOP", "compute_checksum:read-size", ok, site=cx.site(f.node),
            msg="" if ok else "read() must be called on the opened file with a positive constant size")
     rule = ChunkLoop(set(), {dname})
